@@ -57,6 +57,7 @@ struct Totals {
     uint64_t idleProbes = 0, readerParksJudged = 0, readersNoWriter = 0, rendezvous = 0, rendezvousReaders = 0;
     uint64_t predictedParks = 0, predictedFast = 0, lateArrivalPatterns = 0, lateArrivals = 0;
     std::atomic<uint64_t> nestedSections{0}, nestedSameResource{0};
+    uint64_t deepQueues = 0;
     std::vector<uint64_t> fps;          // fingerprints of non-trivial cases
     std::vector<std::string> samples;
 } T;
@@ -400,6 +401,12 @@ void runPattern(uint64_t caseIdx, rt::Rng rng) {
         int len = 1;
         while (k >= (1ULL << len)) { k -= 1ULL << len; ++len; }
         for (int i = 0; i < len; ++i) word.push_back((k >> i) & 1);
+    } else if (idx % 89 == 7) {
+        // a very deep queue: 70-160 requests, mostly writers so that they do not merge, parked behind one holder
+        holder = rng.below(2);
+        int len = (int) rng.range(70, 160);
+        for (int i = 0; i < len; ++i) word.push_back(rng.below(100) < 85 ? W : R);
+        ++T.deepQueues;
     } else {
         holder = rng.below(2);
         int len = (int) rng.range(7, 10);
@@ -428,6 +435,7 @@ void runPattern(uint64_t caseIdx, rt::Rng rng) {
     std::string ws;
     for (auto c : word) ws += c == W ? 'W' : 'R';
     if (pivot) { ws += " then, while #" + std::to_string(pivot) + " holds, "; for (auto c : word2) ws += c == W ? 'W' : 'R'; }
+    if (ws.size() > 150) ws = ws.substr(0, 60) + "...(" + std::to_string(word.size()) + " arrivals)";
     char desc[260];
     snprintf(desc, sizeof desc, "pattern holder=%c arrivals=%s rendezvous=%d cpus=%d delayProfile=%d", holder == W ? 'W' : 'R',
              ws.c_str(), (int) rendezvous, cpus, profile);
@@ -615,7 +623,7 @@ int main(int argc, char **argv) {
                    .kv("readersNoWriter", T.readersNoWriter).kv("readerParksJudged", T.readerParksJudged)
                    .kv("rendezvous", T.rendezvous).kv("rendezvousReaders", T.rendezvousReaders)
                    .kv("predictedParks", T.predictedParks).kv("predictedFast", T.predictedFast)
-                   .kv("lateArrivalPatterns", T.lateArrivalPatterns).kv("lateArrivals", T.lateArrivals).kv("sectionsNestedInOtherResource", T.nestedSections.load()).kv("recursiveReadLocks", T.nestedSameResource.load())
+                   .kv("lateArrivalPatterns", T.lateArrivalPatterns).kv("lateArrivals", T.lateArrivals).kv("sectionsNestedInOtherResource", T.nestedSections.load()).kv("recursiveReadLocks", T.nestedSameResource.load()).kv("queuesDeeperThan64", T.deepQueues)
                    .kv("nontrivial", (uint64_t) T.fps.size())
                    .kv("delaysAfterWake", k.afterWake.load()).kv("delaysCondEntry", k.condEntry.load())
                    .kv("delaysOther", k.beforeLock.load() + k.afterUnlock.load() + k.beforeNotify.load() + k.threadStart.load())
